@@ -158,6 +158,7 @@ func runC19(c *Ctx, tier string) {
 	runListInputsWhole(c, "C19-K3")
 	runLateErrorRoutes(c, "C19-E4")
 	runRemoteParamsUsed(c, "C19-K4")
+	runClientPathEscaping(c, "C19-K5")
 	// E2
 	if fn := p.Func("(*api/queryio.Writer).WriteControl"); fn == nil {
 		c.Undecided("C19-E2", "(*api/queryio.Writer).WriteControl", "anchor does not resolve")
